@@ -136,6 +136,9 @@ class SequenceBasedRoutingProblem(RoutingProblem):
         if self.variables_enumerated:
             return
 
+        # start from scratch (this may be a re-enumeration after the problem changed)
+        self.var_mapping = []
+        self.fixed_values = dict()
         # "inverse" var map - from tuple index to enumerated index
         # use -1 to indicate the var is fixed
         self.var_mapping_inverse = -np.ones(
@@ -380,6 +383,8 @@ class SequenceBasedRoutingProblem(RoutingProblem):
         arow = []
         acol = []
         brhs = []
+        # start from scratch (this may be a rebuild after the problem changed)
+        self.lin_con_names = []
 
         row_index = 0
         # Each node (except depot) is visited exactly once
@@ -434,6 +439,14 @@ class SequenceBasedRoutingProblem(RoutingProblem):
         logger.info("Linear constraints built in %s seconds", duration)
         return
 
+    def reset_build_flags(self):
+        """ Problem data changed: variables and model data must be rebuilt """
+        self.variables_enumerated = False
+        self.objective_built = False
+        self.lin_con_built = False
+        self.quad_con_built = False
+        return
+
     def make_feasible(self, high_cost):
         """
         Some sort of greedy construction heuristic to make sure the problem is
@@ -476,6 +489,7 @@ class SequenceBasedRoutingProblem(RoutingProblem):
                         node_nm = self.node_names[current_node]
                         self.add_arc(node_nm, depot_nm, 0, 0)
                         logger.info("Adding arc %s -- %s", node_nm, depot_nm)
+                        self.reset_build_flags()
                     for sii in range(si, self.max_sequence_length-1):
                         used_sequences.append((vi, sii, 0))
                     break
@@ -486,6 +500,7 @@ class SequenceBasedRoutingProblem(RoutingProblem):
                 node_nm = self.node_names[current_node]
                 self.add_arc(node_nm, depot_nm, 0, 0)
                 logger.info("Adding arc %s -- %s", node_nm, depot_nm)
+                self.reset_build_flags()
         # end vehicle loop
 
         for ni in unvisited_indices:
